@@ -13,6 +13,9 @@ GENEQ = {"theories/Proofs/GenEq_EdgeCase.vo": "EdgeCase", "theories/Proofs/GenEq
 # units added to the cone after round 2 of the seeded changes (a refused / changed unit must be noticed by this check too)
 TARGETS = TARGETS + ["theories/Proofs/GenEq_MetricFormulas.vo"]
 GENEQ = dict(GENEQ, **{"theories/Proofs/GenEq_MetricFormulas.vo": "MetricFormulas"})
+# T1 units added after round 4 of the seeded changes
+TARGETS = TARGETS + ["theories/Proofs/GenEq_ResultInit.vo"]
+GENEQ = dict(GENEQ, **{"theories/Proofs/GenEq_ResultInit.vo": "ResultInit"})
 ALLOWED_AXIOMS = []
 RULE = ("case = (input type, array pair incl. empty sides, subset of global metrics, injective handler table); oracle: empty side -> the "
         "handler's EMPTY_PRED/EMPTY_REF/NO_INSTANCES entry, otherwise global_bin_m == Metric.m applied to the binarised INPUT arrays; "
